@@ -87,7 +87,7 @@ example : (Cmd.clean false true [0]).removes (runHist true demoHist) = [0] ∧
 /-- the full statement: `info`'s status computation agrees with `run`'s in every situation -/
 def C20_getlog_agrees_full : Prop :=
   ∀ (c : Checker) (d : TaskDef) (r : Rcd) (fs : FS) (resOf : Name → Option Res),
-    statusLog c d r fs resOf = statusOf true c d r fs resOf
+    logStatus c d r fs resOf = statusOf true c d r fs resOf
 
 /-- **what is true of the code**: the two computations agree *exactly* outside `logDisagree` -- a file dependency is
     missing and either another one is modified (no early exit, checker unchanged): `error` is overwritten by `run`;
@@ -96,26 +96,26 @@ def C20_getlog_agrees_full : Prop :=
     Missing for `C20_getlog_agrees_full`: the two situations of `logDisagree`, see the counterexamples. -/
 theorem C20_getlog_agrees_partial (c : Checker) (d : TaskDef) (r : Rcd) (fs : FS) (resOf : Name → Option Res)
     (hnc : d.deps.any (depIs .crash c r fs) = false) :
-    statusLog c d r fs resOf = statusOf true c d r fs resOf ↔ logDisagree c d r fs resOf = false :=
+    logStatus c d r fs resOf = statusOf true c d r fs resOf ↔ logDisagree c d r fs resOf = false :=
   getlog_agrees_iff c d r fs resOf hnc
 
 /-- in particular they agree whenever every file dependency exists -/
 theorem C20_getlog_agrees_when_deps_present (c : Checker) (d : TaskDef) (r : Rcd) (fs : FS) (resOf : Name → Option Res)
     (hnc : d.deps.any (depIs .crash c r fs) = false) (hpres : d.deps.any (depMissing fs) = false) :
-    statusLog c d r fs resOf = statusOf true c d r fs resOf :=
+    logStatus c d r fs resOf = statusOf true c d r fs resOf :=
   getlog_agrees_of_present c d r fs resOf hnc hpres
 
 /-- and always on "up-to-date" -/
 theorem C20_getlog_agrees_on_upToDate (s : St) (t : Name) :
-    s.statusLog t = .upToDate ↔ s.status true t = .upToDate :=
-  St.statusLog_upToDate_iff s t
+    logStatusAt s t = .upToDate ↔ s.status true t = .upToDate :=
+  logStatus_upToDate_iff _ _ _ _ _
 
 /-- F-C20 (a): run, edit one dependency, delete the other: `run` / `list -s` say `error`, `info` says `run` -/
 def overwrittenHist : List Op :=
   [.edit 0 4 1, .edit 1 4 2, .redefine 0 ⟨[0, 1], [], []⟩, .run 0 true false [] none, .edit 0 4 3, .delete 1]
 
 theorem C20_getlog_error_overwritten_counterexample :
-    (runHist true overwrittenHist).status true 0 = .error ∧ (runHist true overwrittenHist).statusLog 0 = .run := by
+    (runHist true overwrittenHist).status true 0 = .error ∧ logStatusAt (runHist true overwrittenHist) 0 = .run := by
   decide
 
 /-- F-C20 (b): a false `uptodate` item and a missing dependency: `run` executes the task, `info` says `error` -/
@@ -123,7 +123,7 @@ def hiddenHist : List Op :=
   [.edit 0 4 1, .redefine 0 ⟨[0], [], [.const false]⟩, .run 0 true false [] none, .delete 0]
 
 theorem C20_getlog_error_hidden_counterexample :
-    (runHist true hiddenHist).status true 0 = .run ∧ (runHist true hiddenHist).statusLog 0 = .error := by
+    (runHist true hiddenHist).status true 0 = .run ∧ logStatusAt (runHist true hiddenHist) 0 = .error := by
   decide
 
 theorem C20_getlog_counterexample : ¬ C20_getlog_agrees_full := by
@@ -131,7 +131,7 @@ theorem C20_getlog_counterexample : ¬ C20_getlog_agrees_full := by
   have h1 := h (runHist true overwrittenHist).checker ((runHist true overwrittenHist).defs 0)
     ((runHist true overwrittenHist).rcd 0) (runHist true overwrittenHist).fs (runHist true overwrittenHist).resOf
   have h2 := C20_getlog_error_overwritten_counterexample
-  simp only [St.status, St.statusLog] at h2
+  simp only [St.status, logStatusAt] at h2
   rw [h1, h2.1] at h2
   exact absurd h2.2 (by decide)
 
@@ -182,8 +182,8 @@ theorem C20_info_status_agrees_partial (s : St) (t : Name)
   | true => simp [infoShown, decision, hign]
   | false =>
     rw [← getlog_agrees_iff s.checker (s.defs t) (s.rcd t) s.fs s.resOf hnc]
-    simp only [infoShown, decision, hign, Bool.false_eq_true, if_false, St.statusLog, St.status, false_or]
-    generalize statusLog s.checker (s.defs t) (s.rcd t) s.fs s.resOf = a
+    simp only [infoShown, decision, hign, Bool.false_eq_true, if_false, logStatusAt, St.status, false_or]
+    generalize logStatus s.checker (s.defs t) (s.rcd t) s.fs s.resOf = a
     generalize statusOf true s.checker (s.defs t) (s.rcd t) s.fs s.resOf = b
     cases a <;> cases b <;> simp [ofStatus]
 
@@ -196,11 +196,11 @@ theorem C20_info_ignored_agrees (s : St) (t : Name) (hign : (s.rcd t).ign = true
 
 theorem C20_info_upToDate_iff (s : St) (t : Name) :
     infoShown s t = .upToDate ↔ decision s t = .upToDate := by
-  have := St.statusLog_upToDate_iff s t
+  have : logStatusAt s t = .upToDate ↔ s.status true t = .upToDate := logStatus_upToDate_iff _ _ _ _ _
   simp only [infoShown, decision]
   cases (s.rcd t).ign
   · simp only [Bool.false_eq_true, if_false]
-    generalize s.statusLog t = a at this ⊢
+    generalize logStatusAt s t = a at this ⊢
     generalize s.status true t = b at this ⊢
     cases a <;> cases b <;> simp_all [ofStatus]
   · simp
@@ -238,7 +238,8 @@ theorem C20_reasons_true (c : Checker) (d : TaskDef) (r : Rcd) (fs : FS) (resOf 
     (∀ p, p ∈ x.missingTarget ↔ p ∈ d.targets ∧ fs p = none) ∧
     (∀ p, p ∈ x.missingDep ↔ p ∈ d.deps ∧ fs p = none) ∧
     (∀ p, p ∈ x.changed ↔ p ∈ d.deps ∧ ∃ cur, fs p = some cur ∧
-        ((logRcd c r).fstate p = none ∨ ∃ st, (logRcd c r).fstate p = some st ∧ checkModified c st cur = .modified)) ∧
+        ((logRcd c r).fstate p = none ∨ notInPrev (logRcd c r) p = true ∨
+         ∃ st, (logRcd c r).fstate p = some st ∧ checkModified c st cur = .modified)) ∧
     (∀ p, p ∈ x.removed → p ∈ prevDeps (logRcd c r) ∧ p ∉ d.deps) ∧
     (∀ p, p ∈ x.added → p ∈ d.deps ∧ p ∉ prevDeps (logRcd c r)) := by
   intro x
@@ -274,7 +275,7 @@ theorem C20_reasons_true (c : Checker) (d : TaskDef) (r : Rcd) (fs : FS) (resOf 
   · intro p
     simp [x, reasonsOf, List.mem_filter, depMissing]
   · intro p
-    simp only [x, reasonsOf, List.mem_filter, depIs]
+    simp only [x, reasonsOf, List.mem_filter, depListed]
     constructor
     · rintro ⟨hp, h⟩
       refine ⟨hp, ?_⟩
@@ -282,15 +283,20 @@ theorem C20_reasons_true (c : Checker) (d : TaskDef) (r : Rcd) (fs : FS) (resOf 
       | none => simp [hf] at h
       | some cur =>
         refine ⟨cur, rfl, ?_⟩
-        simp only [hf, depVerdict, beq_iff_eq] at h
+        simp only [hf] at h
         cases hs : (logRcd c r).fstate p with
         | none => exact Or.inl rfl
-        | some st => simp only [hs] at h; exact Or.inr ⟨st, rfl, h⟩
+        | some st =>
+          simp only [hs, Bool.or_eq_true, beq_iff_eq] at h
+          rcases h with h | h
+          · exact Or.inr (Or.inl h)
+          · exact Or.inr (Or.inr ⟨st, rfl, h⟩)
     · rintro ⟨hp, cur, hf, h⟩
       refine ⟨hp, ?_⟩
-      simp only [hf, depVerdict, beq_iff_eq]
-      rcases h with h | ⟨st, hs, h⟩
+      simp only [hf]
+      rcases h with h | h | ⟨st, hs, h⟩
       · simp [h]
+      · cases hs : (logRcd c r).fstate p <;> simp [h]
       · simp [hs, h]
   · intro p hp
     simp only [x, reasonsOf] at hp
@@ -305,33 +311,50 @@ theorem C20_reasons_true (c : Checker) (d : TaskDef) (r : Rcd) (fs : FS) (resOf 
 
 /-- … and the list is complete: `info` prints no reason at all exactly when it reports `up-to-date` -/
 theorem C20_reasons_complete (c : Checker) (d : TaskDef) (r : Rcd) (fs : FS) (resOf : Name → Option Res)
-    (hnc : d.deps.any (depIs .crash c (logRcd c r) fs) = false) :
-    (reasonsOf c d r fs resOf).isEmpty = true ↔ statusLog c d r fs resOf = .upToDate :=
+    (hnc : d.deps.any (depRaises c (logRcd c r) fs) = false) :
+    (reasonsOf c d r fs resOf).isEmpty = true ↔ logStatus c d r fs resOf = .upToDate :=
   reasons_isEmpty_iff c d r fs resOf hnc
 
-/-- the `changed_file_dep` reason against the *ghost* state (never a record): after every prefix of every history within
-    the checker's premise, for a dependency that the last recorded successful execution already had (same checker),
-    `info` lists it as changed exactly when the file exists and is modified -- by the configured checker's rule --
-    relative to what that execution saw.  (A dependency the last execution did not have is reported under
-    `added_file_dep`; with another checker everything present is reported as changed, after `checker_changed`.) -/
-theorem C20_reasons_changed_is_true (h : List Op) (hf : Faithful h = true) (k : Nat) (t : Name) (e : Exec) :
+/-- the `changed_file_dep` reason against the *ghost* state (never a record), at full strength: after every prefix of
+    every history within the checker's premise, `info` lists a file dependency as changed **exactly** when the file
+    exists and the last recorded successful execution did not see it as it is now: there is no such execution, or it
+    used another checker, or it did not have this dependency (the `fix:` commit "a file_dep added back to a task is
+    reported as changed"), or the file is modified -- by the configured checker's rule -- relative to what it saw. -/
+theorem C20_reasons_changed_is_true (h : List Op) (hf : Faithful h = true) (k : Nat) (t : Name) (p : Path) :
     let s := runHist true (h.take k)
-    s.shadow t = some e → e.checker = s.checker → ∀ p, p ∈ e.deps →
-      (p ∈ (infoReasons s t).changed ↔
-        p ∈ (s.defs t).deps ∧ (s.fs p).isSome = true ∧ depUnmod s.checker e s.fs p = false) := by
-  intro s he hck p hp
+    p ∈ (infoReasons s t).changed ↔
+      p ∈ (s.defs t).deps ∧ (s.fs p).isSome = true ∧
+        match s.shadow t with
+        | none => True
+        | some e => e.checker ≠ s.checker ∨ p ∉ e.deps ∨ depUnmod s.checker e s.fs p = false := by
+  intro s
   have hf' : Faithful (h.take k) = true := by
     unfold Faithful at hf ⊢
     rw [List.all_eq_true] at hf ⊢
     intro o ho
     exact hf o (List.mem_of_mem_take ho)
-  exact changed_iff_spec (hist_inv _ hf') t e he hck p hp
+  have hinv : Inv s := hist_inv _ hf'
+  cases he : s.shadow t with
+  | none => simpa using changed_iff_none hinv t he p
+  | some e =>
+    by_cases hck : e.checker = s.checker
+    · simpa [hck] using changed_iff_spec hinv t e he hck p
+    · simpa [hck] using changed_iff_other hinv t e he hck p
+
+/-- a dependency added back to the task (its stale state is still in the record) is listed, whatever its content -/
+def readdedHist : List Op :=
+  [.edit 0 4 1, .edit 1 4 2, .redefine 0 ⟨[0, 1], [], []⟩, .run 0 true false [] none,
+   .redefine 0 ⟨[0], [], []⟩, .run 0 true false [] none, .redefine 0 ⟨[0, 1], [], []⟩]
+
+example : (infoReasons (runHist true readdedHist) 0).changed = [1] ∧ (infoReasons (runHist true readdedHist) 0).added = [1]
+    ∧ depIs .modified .md5 ((runHist true readdedHist).rcd 0) (runHist true readdedHist).fs 1 = false := by decide
 
 /-- non-vacuity of the hypotheses: after `overwrittenHist` the last execution of task 0 is recorded with both
     dependencies and the configured checker, and dependency 0 is listed as changed -/
 example : ∃ e, (runHist true overwrittenHist).shadow 0 = some e ∧ e.checker = (runHist true overwrittenHist).checker ∧
-    0 ∈ e.deps ∧ 0 ∈ (infoReasons (runHist true overwrittenHist) 0).changed :=
-  ⟨_, rfl, by decide, by decide, by decide⟩
+    0 ∈ e.deps ∧ depUnmod .md5 e (runHist true overwrittenHist).fs 0 = false ∧
+    0 ∈ (infoReasons (runHist true overwrittenHist) 0).changed :=
+  ⟨_, rfl, by decide, by decide, by decide, by decide⟩
 
 /-- non-vacuity: a reachable state with several reasons at once -/
 example : infoReasons (runHist true overwrittenHist) 0 =
